@@ -61,14 +61,34 @@ class SelProblem(object):
 
     # -- serialisation (replay / corpus) --
     def to_json(self):
-        return {'tree': self.tree, 'ref_genes': self.ref_genes,
-                'up': self.up, 'down': self.down, 'query': self.query,
+        ref = self.ref_genes
+        query = self.query
+        if len(ref) > 1000 and ref == ['g%06d' % i for i in range(len(ref))]:
+            if query == ref:
+                query = 'ALL'
+            ref = {'n': len(ref)}
+        sparse = len(self.up) > 2000
+        return {'tree': self.tree, 'ref_genes': ref,
+                'up': _sparse_rows(self.up) if sparse else self.up,
+                'down': _sparse_rows(self.down) if sparse else self.down,
+                'query': query,
                 'n_per': self.n_per, 'overrides': self.overrides,
                 'parent_list': self.parent_list, 'label': self.label,
                 'dtype_mode': getattr(self, 'dtype_mode', 'int64')}
 
     @classmethod
     def from_json(cls, d):
+        d = dict(d)
+        if isinstance(d['ref_genes'], dict):
+            d['ref_genes'] = ['g%06d' % i for i in range(d['ref_genes']['n'])]
+        if d['query'] == 'ALL':
+            d['query'] = list(d['ref_genes'])
+        for k in ('up', 'down'):
+            if isinstance(d[k], dict):
+                rows = [[] for _ in range(d[k]['n'])]
+                for i, r in d[k]['rows']:
+                    rows[i] = r
+                d[k] = rows
         out = cls(d['tree'], d['ref_genes'], d['up'], d['down'], d['query'],
                   d['n_per'], d.get('overrides'), d.get('parent_list'),
                   d.get('label', ''))
@@ -159,10 +179,41 @@ class SelProblem(object):
                 'pairs': [[self.down[i], self.up[i]]
                           for i in range(len(self.pairs))]}
 
+    def model_tables(self, trace_ids=()):
+        """(table_json, query_ids, decode) for the model.  For a very large
+        gene list the genes that mark no pair at all (utility 0 for ever,
+        never chosen, never the argmax while the maximum is positive) are
+        dropped and the others renumbered order-preservingly; decode maps a
+        model gene id back to the reference id."""
+        n_g = len(self.ref_genes)
+        if n_g <= 2000:
+            return self.table_json(), self.query_ids(), None
+        used = set(trace_ids)
+        for rows in (self.up, self.down):
+            for r in rows:
+                used.update(r)
+        used = sorted(g for g in used if g < n_g)
+        if not used:
+            return self.table_json(), self.query_ids(), None
+        new = {g: i for i, g in enumerate(used)}
+        qset = set(self.query_ids())
+        table = {'nGenes': len(used),
+                 'pairs': [[[new[g] for g in self.down[i]],
+                            [new[g] for g in self.up[i]]]
+                           for i in range(len(self.pairs))]}
+        query = [new[g] for g in used if g in qset]
+        return table, query, used
+
     def shape_key(self):
-        return json.dumps([self.tree, self.up, self.down,
+        import hashlib
+        return hashlib.sha1(json.dumps([self.tree, self.up, self.down,
                            sorted(self.query_ids()), self.n_per,
-                           self.overrides, self.parent_list])
+                           self.overrides, self.parent_list]).encode()).hexdigest()
+
+
+def _sparse_rows(rows):
+    return {'n': len(rows),
+            'rows': [[i, r] for i, r in enumerate(rows) if r]}
 
 
 def _p(parent):
@@ -271,6 +322,162 @@ def gen_problem(rng, mode=None, max_leaves=7):
     return prob
 
 
+def _two_level(groups):
+    """tree ['class','cluster'] whose top nodes have the given numbers of
+    leaves; leaf names sort in creation order"""
+    tree = {'hierarchy': ['class', 'cluster'], 'class': {}, 'cluster': {}}
+    k = 0
+    for gi, n in enumerate(groups):
+        kids = []
+        for _ in range(n):
+            name = 'c%05d' % k
+            k += 1
+            kids.append(name)
+            tree['cluster'][name] = []
+        tree['class']['T%02d' % gi] = kids
+    return tree
+
+
+def _cross_groups(target):
+    """leaf counts of 2 or 3 top nodes whose cross pairs number `target`"""
+    best = None
+    for a in range(1, 400):
+        if target % a == 0 and a <= target // a:
+            best = (a, target // a)
+    if best is not None and best[0] > 1:
+        return list(best)
+    for a in range(1, 40):
+        for b in range(a, 40):
+            rest = target - a * b
+            if rest > 0 and rest % (a + b) == 0:
+                return [a, b, rest // (a + b)]
+    return [1, target]
+
+
+def _global_groups(max_idx):
+    """(n_low, n_high): leaves 0..n_low-1 under one top node, the rest under
+    another, such that the largest global index of a cross pair is exactly
+    max_idx (pair (n_low-1, n-1))"""
+    for n in range(3, 2000):
+        for i in range(0, n - 1):
+            if i * n - i * (i + 1) // 2 + n - i - 2 == max_idx:
+                return [i + 1, n - i - 1]
+    return None
+
+
+def boundary_problem(rng, target, kind='local'):
+    """integer-width boundaries of the pair index arrays: kind='local' -> the
+    root must discriminate exactly `target` pairs (local indices
+    0..target-1 on the downsampled path); kind='global' -> the largest
+    global pair index the root needs is exactly `target` (behemoth path).
+    The first and last pairs, in local and in global order, of every parent
+    carry a marker no other pair has."""
+    if kind == 'local':
+        # class A = subclasses whose cross pairs number `target`; class B
+        # only inflates the table so that A is not a "behemoth"
+        # (n_leaves > n_pairs // 2 would send it down the full-table path)
+        groups = _cross_groups(target)
+        m = 1
+        while ((sum(groups) + m) * (sum(groups) + m - 1) // 2) // 2 < target:
+            m += 1
+        m += rng.randint(0, 2)
+        tree = {'hierarchy': ['class', 'subclass', 'cluster'],
+                'class': {'A': [], 'B': ['SB']}, 'subclass': {},
+                'cluster': {}}
+        k = 0
+        for gi, n in enumerate(groups + [m]):
+            sub = 'SB' if gi == len(groups) else 'S%02d' % gi
+            kids = []
+            for _ in range(n):
+                name = 'c%05d' % k
+                k += 1
+                kids.append(name)
+                tree['cluster'][name] = []
+            tree['subclass'][sub] = kids
+            if sub != 'SB':
+                tree['class']['A'].append(sub)
+        groups = groups + [m]
+    else:
+        groups = _global_groups(target)
+        tree = _two_level(groups)
+    n_leaves = sum(groups)
+    n_pairs = n_leaves * (n_leaves - 1) // 2
+    n_pool = rng.randint(8, 14)
+    n_per = rng.choice([1, 2])
+    up = [[] for _ in range(n_pairs)]
+    down = [[] for _ in range(n_pairs)]
+    pool = list(range(n_pool))
+    for p in range(n_pairs):
+        if rng.random() < 0.15:
+            g = rng.sample(pool, rng.randint(1, 3))
+            k = rng.randint(0, len(g))
+            up[p] = sorted(g[:k])
+            down[p] = sorted(g[k:])
+    shell = SelProblem(tree, ['g%d' % i for i in range(n_pool)], up, down,
+                       [], n_per)
+    tt = impl_tree(shell)
+    special = []
+    for parent in ([None, ('class', 'A')] if kind == 'local' else [None]):
+        o = leaves_order(shell, tt, parent)
+        if o:
+            special += [o[0], o[-1], min(o), max(o)]
+    special = sorted(set(special))
+    names = ['g%d' % i for i in range(n_pool + len(special))]
+    for j, p in enumerate(special):
+        g = n_pool + j
+        if rng.random() < 0.5:
+            up[p] = sorted(up[p] + [g])
+        else:
+            down[p] = sorted(down[p] + [g])
+    prob = SelProblem(tree, names, up, down, names + ['x0'], n_per,
+                      label='boundary/%s/%d' % (kind, target))
+    prob.dtype_mode = 'uint'
+    # only the parents the case is about (the others can be huge)
+    prob.parent_list = [None, ['class', 'A']] if kind == 'local' else [None]
+    return prob
+
+
+def many_genes_problem(rng, n_genes=200000, n_leaves=None, gb_size=10):
+    """a flat taxonomy whose root has more leaf pairs than one block of
+    create_utility_array (round(gb_size*1024**3/(3*n_genes)) pairs), the
+    remainder not a multiple of the block; very sparse table; the pairs
+    around the block border and the trailing ones carry their own markers"""
+    block = max(1, int(round(gb_size * 1024 ** 3 / (3 * n_genes))))
+    if n_leaves is None:
+        n_leaves = 3
+        while n_leaves * (n_leaves - 1) // 2 <= block + 20:
+            n_leaves += 1
+        n_leaves += rng.randint(0, 2)
+    leaves = ['c%04d' % i for i in range(n_leaves)]
+    tree = {'hierarchy': ['cluster'], 'cluster': {l: [] for l in leaves}}
+    n_pairs = n_leaves * (n_leaves - 1) // 2
+    assert n_pairs > block and n_pairs % block != 0
+    names = ['g%06d' % i for i in range(n_genes)]
+    up = [[] for _ in range(n_pairs)]
+    down = [[] for _ in range(n_pairs)]
+    pool = rng.sample(range(n_genes), 60)
+    for p in rng.sample(range(n_pairs), min(n_pairs, 3000)):
+        g = rng.sample(pool, rng.randint(1, 3))
+        k = rng.randint(0, len(g))
+        up[p] = sorted(g[:k])
+        down[p] = sorted(g[k:])
+    special = [0, block - 1, block, block + 1, n_pairs - 1, n_pairs - 2,
+               rng.randrange(block, n_pairs), rng.randrange(0, block)]
+    poolset = set(pool)
+    free = [g for g in rng.sample(range(n_genes), 200) if g not in poolset]
+    for j, p in enumerate(sorted(set(special))):
+        g = free[j]
+        if j % 2:
+            up[p] = sorted(set(up[p]) | {g})
+        else:
+            down[p] = sorted(set(down[p]) | {g})
+    prob = SelProblem(tree, names, up, down, names, rng.choice([1, 2]),
+                      label='many_genes/%d' % n_genes)
+    prob.dtype_mode = 'uint'
+    prob.block = block
+    return prob
+
+
 # ---------------------------------------------------------------------------
 # writing the reference-marker file (layout of diff_exp/markers.py)
 # ---------------------------------------------------------------------------
@@ -295,7 +502,7 @@ def _transpose(rows, n_rows, n_cols):
 def _uint_dtype(max_val):
     """what cell_type_mapper.utils.utils.choose_int_dtype picks for (0, max)"""
     for dt in (np.uint8, np.uint16, np.uint32):
-        if max_val < np.iinfo(dt).max:
+        if max_val <= np.iinfo(dt).max:
             return dt
     return np.uint64
 
